@@ -42,7 +42,8 @@ class Runner:
                 return "kill"
         fp = self.faultplan
         if fp and not self.faulted and (role == fp["role"] or pr.role == fp["role"]) and want.get("c") == fp["call"] \
-                and (not fp.get("obj") or ("/" + fp["obj"] + "/") in (want.get("path") or want.get("obj") or "")):
+                and (not fp.get("obj") or ("/" + fp["obj"] + "/") in (want.get("path") or want.get("obj") or "")
+                     or (want.get("path") or want.get("obj") or "").endswith("/" + fp["obj"])):
             key = (role, want.get("c"))
             self.ccount[key] = self.ccount.get(key, 0) + 1
             if self.ccount[key] == self.faultplan["k"]:
